@@ -65,14 +65,14 @@ let handle kind a =
       let ops = Array.to_list (Array.map parse_op (Array.sub a 3 (Array.length a - 3))) in
       (try
         let o = run_script (deflate_of table) lvl ops (parse_ending a.(1)) in
-        let rd = reader_read_to_end (inflate_of rtable) o.o_sink in
+        let rd = reader_read_to_end inflate o.o_sink in
         Some (String.concat "," (List.map fmt_result o.o_results) ^ "|" ^ fmt_unit o.o_end ^ "|"
               ^ (match o.o_pos with Some p -> dec_of_n p | None -> "-") ^ "|"
               ^ hex_of_bytes o.o_sink ^ "|" ^ fmt_read rd)
       with Oracle_miss -> Some "deflate-oracle-miss")
   | "rd" | "rdbig" ->
       let table = parse_table a.(0) in
-      Some (fmt_read (reader_read_to_end (inflate_of table) (bytes_of_hex a.(1))))
+      Some (fmt_read (reader_read_to_end inflate (bytes_of_hex a.(1))))
   | _ -> None
 
 let () = run_driver handle
